@@ -103,8 +103,14 @@ def gen(ch, tier):
                                    precisions=(None, None, 0.3, 0.2, 0.15, "low", "medium", "high"), large_fast=0.06)
     # pre-history: the continuum may carry a window size recorded by an earlier fast-mode computation
     pre_window = ch.choice([None, None, None, 1, 2, 3]) if scn["mode"] != "fast" else None
+    # pre-history: the sampler object may have served an earlier gamma computation on another continuum
+    prior = None
+    if scn["sampler"] != "default" and ch.coin(0.2):
+        prior = {"continuum": world.gen_continuum(ch.sub("prior"), max_annot=3, max_units=4, labelset=scn["continuum"]["labelset"],
+                                                  allow_empty_annot=False, min_total_units=3),
+                 "np_seed": ch.randint(0, 2**31 - 1)}
     return {"scenario": scn, "schedule": world.gen_schedule(ch.sub("sched")),
-            "faults": world.gen_faults(ch.sub("faults"), 0.4), "pre_window": pre_window}
+            "faults": world.gen_faults(ch.sub("faults"), 0.4), "pre_window": pre_window, "prior_gamma": prior}
 
 
 def _identical_annotators(cont):
@@ -121,13 +127,14 @@ def _recompute(mode, sample, dissim):
     return sample.get_best_alignment(dissim)
 
 
-def _run_gamma(scn, continuum, dissim, schedule, faults, cap):
+def _run_gamma(scn, continuum, dissim, schedule, faults, cap, sampler=None):
     rec = SamplerRecorder(cap)
     mon = AlignmentMonitor()
 
     def work():
         np.random.seed(scn["np_seed"])
-        return continuum.compute_gamma(**world.gamma_kwargs(scn, dissim, world.build_sampler(scn["sampler"])))
+        smp = sampler if sampler is not None else world.build_sampler(scn["sampler"])
+        return continuum.compute_gamma(**world.gamma_kwargs(scn, dissim, smp))
     with rec, mon:
         out = common.sim_call(work, schedule, faults=faults)
     return out, rec, mon
@@ -178,7 +185,17 @@ def run(case):
     else:
         cap = 1500 + 400
     # ---- the judged run -----------------------------------------------------------
-    out, rec, mon = _run_gamma(scn, continuum, dissim, schedule, case.get("faults"), cap)
+    used_sampler = None
+    if case.get("prior_gamma"):
+        used_sampler = world.build_sampler(scn["sampler"])
+        pc = world.build_continuum(case["prior_gamma"]["continuum"])
+        try:
+            np.random.seed(case["prior_gamma"]["np_seed"])
+            pc.compute_gamma(dissimilarity=dissim, n_samples=2, sampler=used_sampler)
+            stats["sampler_reused_after_other_continuum"] = 1
+        except Exception:  # noqa: BLE001 - the prior computation is only history
+            pass
+    out, rec, mon = _run_gamma(scn, continuum, dissim, schedule, case.get("faults"), cap, used_sampler)
     common.sim_stats(out, stats)
     sd = common.sched_digest(out)
     keys["schedules"].append(sd)
@@ -361,4 +378,8 @@ def shrink_candidates(case, violation):
     if case.get("pre_window") is not None:
         c = copy.deepcopy(case)
         c["pre_window"] = None
+        yield c
+    if case.get("prior_gamma"):
+        c = copy.deepcopy(case)
+        c["prior_gamma"] = None
         yield c
